@@ -16,6 +16,7 @@ TEXTS = [
     'a = 1.5e\nb = 2', 'a = .5e\nb', 'a = 1.5e3 + b', 'a = 1e+3 + b', 'a = 1.5e', 'a = 1.5ex + b',   # exponent part of a number literal
     'f x =\n    x\n    ', 'f x =\n    g y =\n        y\n    ', 'f x =\n    x\n  ', 'f x =\n    x\n', 'f x =\n    x', 'a =\n  b =\n    c\n  d\ne', '  a', 'a\n\n\n', 'if x:\n    (1,\n2)\n', 'x = `+`(1, 2)', 'x = `a\nb`', 'x = `+',   # indentation at end of input, layout
     'a = 1 + \\\n"s" + b', '\\\n#[]#x', 'x = (1,\n   "s", y)', 'x = 1 #[ c\nd ]# + y',   # positions after a line continuation / a line break in brackets followed by a string or comment
+    'a = """x\\ny""" + b', 'a = """\nq\\n\n""" + b', 'c = """a\\{x}b\nc\\{x}\n""" + d', 'a = """m\\\nn""" + b',   # multi-line literals with \\n escapes, line continuations, interpolation pieces over several lines
     'a =\n    1\nb = 2', 'if True:\n    a = "q\\n" + c\n', 'a = #[ x\n y ]# 1 + b', '\\', 'a\\', "'", "''", '"""', "'''", 'a = "\\0\\r\\\'\\"" + z',
 ]
 
@@ -40,6 +41,14 @@ def check_one(src, out):
             if ln > len(lines) or lines[ln - 1][col:col + len(content)] != content:
                 where = lines[ln - 1][col:col + len(content)] if ln <= len(lines) else '<no such line>'
                 return "token %s %r is reported at line %d column %d, where the source has %r" % (kind, content, ln, col, where)
+        # string parts: the content is unescaped, but the token still begins where its first source character stands
+        if status == 'OK' and kind in ('StrLit', 'StrInterpLeft', 'StrInterpMid', 'StrInterpRight') and ln == 0:
+            return "token %s %r is reported at line 0 (no position) although it stands in the text" % (kind, content[:20])
+        if status == 'OK' and kind in ('StrLit', 'StrInterpLeft', 'StrInterpMid', 'StrInterpRight') and ln >= 1:
+            want = '}' if kind in ('StrInterpMid', 'StrInterpRight') else content[:1]
+            got = lines[ln - 1][col:col + 1] if ln <= len(lines) else '<no such line>'
+            if want in ('"', "'", '}') and got != want:
+                return "token %s %r is reported at line %d column %d, where the source has %r (its text begins with %r)" % (kind, content[:20], ln, col, got, want)
     if status == 'OK' and (last != 'EOF' or indents != dedents):
         return "accepted text: stream ends with %s, %d indents, %d dedents" % (last, indents, dedents)
     return None
